@@ -17,7 +17,7 @@ CFG = dict(
                'correctly (a head that unions a two-atom join clause with another clause is mis-evaluated by the engine with and without incremental '
                'maintenance: wrong arity / empty answers; that is a query-evaluation defect outside C18, observed on 9 of 120 unrestricted '
                'histories at /repo 3500a31 and reported to the builder of C05, who repaired it in d7e60de/f64b984; the restriction is kept). Rule-catalog validation is an input of the model (the accept/reject verdict of the real catalog).',
-    bin='c18', n_quick=300, n_thorough=6000,
+    bin='c18', n_quick=300, n_thorough=1500,
     technique='Coq proof (invariant over histories) + differential correspondence of the executable model against two real StorageEngines',
     corr_name='Model/Mat.v (step/query_inc) vs StorageEngine with enable_incremental',
     rule='corpus of 11 hand-written histories (witnesses of the 4 known classes, flat recursive/negated rules materialized and invalidated, '
